@@ -304,6 +304,9 @@ pub enum BrokerAct {
     /// the transport's send buffer fills up: after `after` more outbound bytes nothing is accepted
     /// until `blocks` write calls have found it busy
     WriteGate { after: usize, blocks: u8 },
+    /// a sluggish executor: from now on a task woken by arriving data is polled this much later
+    /// (virtual microseconds); the application is still "waiting in poll()" all that time
+    WakeDelay(u64),
 }
 
 #[derive(Clone, Debug, Serialize, Deserialize, PartialEq)]
